@@ -751,9 +751,50 @@ pub fn gen_random_bytes(t: &mut Tape, max: usize) -> Vec<u8> {
 // ------------------------------------------------------------------------------------------
 // trailers
 
+/// `n` bytes that read as a run of well-formed TLVs (registered type codes, value lengths 0..8 with 4 favoured).
+pub fn tlv_run(seed: u32, n: usize) -> Vec<u8> {
+    let noise = fill(seed | 1, n + 64);
+    let mut out = Vec::with_capacity(n + 8);
+    let mut i = 0usize;
+    const KINDS: [u8; 14] = [0x01, 0x02, 0x03, 0x03, 0x03, 0x04, 0x05, 0x20, 0x21, 0x22, 0x23, 0x24, 0x25, 0x30];
+    while out.len() < n {
+        let kind = KINDS[noise[i % noise.len()] as usize % KINDS.len()];
+        let len = match noise[(i + 1) % noise.len()] % 4 {
+            0 => 4usize,
+            1 => 0,
+            2 => (noise[(i + 2) % noise.len()] % 9) as usize,
+            _ => 4,
+        };
+        out.push(kind);
+        out.extend_from_slice(&(len as u16).to_be_bytes());
+        for k in 0..len {
+            out.push(noise[(i + 3 + k) % noise.len()]);
+        }
+        i += 3 + len;
+    }
+    out.truncate(n);
+    out
+}
+
 pub fn gen_trailer(t: &mut Tape, utf8_only: bool) -> (Vec<u8>, &'static str) {
-    let k = if utf8_only { t.weighted(&[1, 0, 3, 2, 2, 3, 3, 0, 5]) } else { t.weighted(&[1, 3, 3, 2, 2, 3, 3, 2, 2]) };
+    let k = if utf8_only { t.weighted(&[1, 0, 3, 2, 2, 3, 3, 0, 5, 0, 0]) } else { t.weighted(&[1, 3, 3, 2, 2, 3, 3, 2, 2, 3, 1]) };
     match k {
+        9 => {
+            // bytes that continue a TLV chain: well-formed TLVs with registered type codes and short values
+            // (a parser that walks TLVs past the declared length would take them for part of the header)
+            let n = t.usize_in(3, 40);
+            (tlv_run(t.u32() | 3, n), "tlv-run")
+        }
+        10 => {
+            // a very large trailer: the buffer is 64 KiB .. 128 KiB larger than the header
+            let n = match t.below(4) {
+                0 => 65536 - t.usize_in(0, 40),
+                1 => 65536 + t.usize_in(0, 40),
+                2 => 131072 + t.usize_in(0, 40) - 20,
+                _ => t.usize_in(65000, 140000),
+            };
+            (fill(gen_seed(t), n), "huge")
+        }
         8 => {
             // valid UTF-8 text rich in 2/3/4-byte characters, of any length up to ~130 bytes (so that some
             // character straddles whatever fixed offset a parser might cut at)
